@@ -65,6 +65,27 @@ KERNELS = [
       [("converged", "bool"), ("step_ok", "bool")], "c05", ["C05"]),
     K("src_done_status", "src/solver.cpp",
       r"bool solver_t::done\(.*?state\.status\((.*?)\);",
-      [(r"solver_status::converged", "1"), (r"solver_status::failed", "2"), (r"state\.valid\(\)", "state_valid")],
-      [("converged", "bool"), ("state_valid", "bool")], "c05", ["C05"]),
+      [(r"solver_status::converged", "1"), (r"solver_status::failed", "2")],
+      [("converged", "bool"), ("step_ok", "bool")], "c05", ["C05"]),
+    # ---- src/solver/penalty.cpp: outer loop of solver_penalty_t::minimize (extension C05_Outer) ---------
+    K("src_ps_loop", "src/solver/penalty.cpp",
+      r"solver_penalty_t::minimize\(.*?for \(tensor_size_t outer = 0; (.*?); \+\+outer\)",
+      [],
+      [("outer", "Z"), ("max_outers", "Z")], "c05", ["C05"]),
+    # the `continue` branch: the inner solution is not usable, only the penalty grows
+    K("src_ps_skip", "src/solver/penalty.cpp",
+      r"solver_penalty_t::minimize\(.*?const auto iter_ok = cstate\.valid\(\);\s*if \((.*?)\)\s*\{\s*penalty \*= eta;\s*continue;",
+      [],
+      [("iter_ok", "bool")], "c05", ["C05"]),
+    # ---- src/solver/state.cpp: ::nano::converged(bstate, cstate, epsilon); the comparison is an atom (computed by the model
+    # over Q with the rounded operations), its text is pinned by the atom's regex
+    K("src_state_converged", "src/solver/state.cpp",
+      r"bool nano::converged\(const solver_state_t& bstate, const solver_state_t& cstate, const scalar_t epsilon\)\s*\{\s*"
+      r"const auto dx = \(cstate\.x\(\) - bstate\.x\(\)\)\.lpNorm<Eigen::Infinity>\(\);\s*return (.*?);",
+      [(r"dx < epsilon \* std::max\(1\.0, bstate\.x\(\)\.lpNorm<Eigen::Infinity>\(\)\)", "dx_lt_scaled")],
+      [("dx_lt_scaled", "bool")], "c05", ["C05"]),
+    K("src_ps_converged", "src/solver/penalty.cpp",
+      r"solver_penalty_t::minimize\(.*?const auto converged = (.*?);\s*bstate\.update\(cstate\.x\(\)\);\s*if \(done\(bstate, iter_ok, converged, logger\)\)",
+      [(r"::nano::converged\(bstate, cstate, epsilon\)", "dx_conv")],
+      [("iter_ok", "bool"), ("dx_conv", "bool")], "c05", ["C05"]),
 ]
